@@ -31,11 +31,30 @@ namespace Pya
 **order-sensitive on unions** (dataclass hash of the `vals` tuple), type-sensitive on literals
 (`hash((type(val), val))`), and *never* equal for two distinct unhashable literals (identity hash;
 the model cannot see object identity, the correspondence builds distinct objects). Defined before
-`Ty.beq` because `MultiValuedValue.__eq__` compares `set(vals)`, i.e. looks members up by hash. -/
+`Ty.beq` because `MultiValuedValue.__eq__` compares `set(vals)`, i.e. looks members up by hash.
+
+One **systematic collision** is modelled: `hash(KnownValue(v)) = hash((type(v), v))` and the dataclass
+hash of `TypedValue(t)` is `hash((t, literal_only)) = hash((t, False))`; a tuple hash depends on the
+element hashes only, and `hash(False) = 0`, so for every literal `v` with `hash(v) = 0` — `0`, `False`,
+`''`, `b''` in the object universe — `KnownValue(v)` and `TypedValue(type(v))` hash equal (they are not
+`==`). The collision propagates through every enclosing value (all other hashes are tuple hashes of
+the parts). Not modelled: `SequenceValue`'s dataclass hash / `==` also cover the derived field
+`args = unite_values(members)` (Spec/D14.lean, class `seqArgs`, delimits where that matters). -/
+
+/-- the class `c` such that the literal hashes like `TypedValue(c)`: literals with Python hash 0 -/
+def Obj.zeroHashCls : Obj → Option Cls
+  | .int n => if n == 0 then some C.int else Option.none
+  | .bool b => if b then Option.none else some C.bool
+  | .str s => if s == "" then some C.str else Option.none
+  | .bytes s => if s == "" then some C.bytes else Option.none
+  | _ => Option.none
+
 mutual
 def Ty.hashEq : Ty → Ty → Bool
   | .any, .any => true
   | .known a, .known b => a.hashable && b.hashable && Obj.same a b
+  | .known a, .typed c => a.zeroHashCls == some c
+  | .typed c, .known a => a.zeroHashCls == some c
   | .typed c, .typed d => c == d
   | .newtype n c, .newtype m d => n == m && c == d
   | .generic c as, .generic d bs => c == d && Ty.hashEqList as bs
